@@ -433,8 +433,19 @@ def rule_subgate(ctx) -> None:
         ctx.check(ok, "C02.SUBGATE", f"{fn.qual}/bytes-cache-behind-perf", fn.loc(), "the size-aware cache is selected only under perf.enabled", "the perf-only byte cache can be selected with perf.enabled off")
     for q in ("clematis.engine.stages.t1:_t1_parallel_enabled", "clematis.engine.stages.t2.parallel:t2_parallel_enabled", "clematis.engine.orchestrator.parallel:_agents_parallel_enabled"):
         fn = ctx.func(q)
-        ctx.info("C02.SUBGATE", f"{fn.qual}/parallel-without-master", fn.loc(),
-                 "reads perf.parallel.* without perf.enabled (pinned by the test suite); parallelism selects an execution strategy - its observable equivalence with the sequential path is C09 / C10, not a C02 obligation")
+        cfg = ctx.cfg(fn)
+        bad = None
+        for n in cfg.nodes:
+            if n.kind == "stmt" and isinstance(n.ast, ast.Return) and n.ast.value is not None and n in cfg.reachable_from_entry():
+                v = n.ast.value
+                if isinstance(v, ast.Constant) and v.value is False:
+                    continue
+                if not gate_on(ctx, fn, n, pe, "cfg:perf.enabled"):
+                    bad = bad or n
+        ctx.check(bad is None, "C02.SUBGATE", f"{fn.qual}/parallel-without-master", fn.loc(bad.ast) if bad is not None else fn.loc(),
+                  "the parallel gate can only be true when perf.enabled is true",
+                  f"`{src(bad.ast)[:60] if bad is not None else ''}` can be true although perf.enabled is false: perf.parallel.* selects the fan-out path with the performance master switch off, and that "
+                  "path is not result-identical to the sequential one (per-shard cluster cut, completion-order cache fill, read-only state writes: the C09 / C10 findings), so a value in the gated-off subtree has an effect")
 
 
 ARTEFACTS = {
